@@ -117,6 +117,10 @@ def run(res):
                 if diff and "sequence_num" not in diff:
                     res.disagree("writer model vs implementation (sessions): " + diff, hist, None, None)
                     ndis += 1
+        bad = wl.misplaced_files(cfg, files)
+        if bad:
+            res.violation("file-in-wrong-subdirectory", "a data file is not in the subdirectory the layout names for its time",
+                          hist, bad[0][2], list(bad[0][:2]))
         # oracle 1: files finalized by earlier sessions keep their bytes
         endh = final_hashes(chdir)
         for k, snap in enumerate(snaps):
@@ -181,7 +185,7 @@ def run(res):
             w.close()
             h0 = tree_hash(chdir)
             alts = {
-                "n": dict(n=cfg.n + 1), "d": dict(d=cfg.d + 1), "sc": dict(sc=cfg.sc * 2), "fc": dict(fc=cfg.fc * 2 if (cfg.sc * 1000) % (cfg.fc * 2) == 0 else cfg.fc // 2 or 1),
+                "n": dict(n=cfg.n + 1), "d": dict(d=cfg.d + 1), "unreduced-fraction": dict(n=cfg.n * 2, d=cfg.d * 2), "sc": dict(sc=cfg.sc * 2), "fc": dict(fc=cfg.fc * 2 if (cfg.sc * 1000) % (cfg.fc * 2) == 0 else cfg.fc // 2 or 1),
                 "cont": dict(cont=not cfg.cont), "complex": dict(is_complex=not cfg.is_complex), "nsub": dict(nsub=cfg.nsub + 1),
                 "size": dict(size=8 if cfg.size != 8 else 4), "kind": dict(kind="f" if cfg.kind != "f" else "i", size=4 if cfg.size not in (4, 8) else cfg.size),
                 "order": dict(order=">" if cfg.order == "<" else "<", size=cfg.size if cfg.size > 1 else 2),
@@ -206,29 +210,36 @@ def run(res):
                 if tree_hash(chdir) != h0:
                     res.violation("mismatch-touched-directory:" + name, "a refused session changed the channel directory",
                                   {"cfg": cfg.as_dict(), "changed": name}, "untouched", "changed")
-    # ---- same-named channel under several top-level directories
-    for i in range(10 if res.tier == "quick" else 100):
+    # ---- same-named channel under several top-level directories; a directory may hold several
+    #      recording periods (sessions) that surround those of another directory
+    for i in range(16 if res.tier == "quick" else 200):
         cfg = wl.gen_cfg(rng, modes=["gapped", "cont"])
         pf = cfg.per_file()
-        tops = [os.path.join(work, "t%d_%d" % (i, k)) for k in range(rng.choice([2, 3]))]
+        ndirs = rng.choice([2, 2, 3])
+        tops = [os.path.join(work, "t%d_%d" % (i, k)) for k in range(ndirs)]
+        nper = rng.randrange(ndirs, 6)
+        owner = [rng.randrange(ndirs) for _ in range(nper)]
+        for k in range(ndirs):              # every directory records at least one period
+            if k not in owner:
+                owner[rng.randrange(nper)] = k
         exp = {}
         tag = 1
         base = cfg.start
-        for k, top in enumerate(tops):
-            # disjoint file periods per directory
-            st = wl.file_start(cfg, wl.F_of(cfg, base) + cfg.fc * (1 + 4 * k)) + rng.choice([0, 1, 2])
+        writers = {}
+        for per, k in enumerate(owner):
+            st = wl.file_start(cfg, wl.F_of(cfg, base) + cfg.fc * (1 + 12 * per)) + rng.choice([0, 1, 2])
             c2 = wl.Cfg(cfg.n, cfg.d, cfg.sc, cfg.fc, st, cfg.cont, cfg.comp, cfg.cksum, cfg.kind, cfg.size, cfg.order, cfg.is_complex, cfg.nsub)
             ops = [("w", 0, pf + 1, tag), ("w", pf + 3, 2, tag + pf + 1), ("c",)]
             tag += pf + 3
-            reports, w = wl.run_impl(c2, ops, os.path.join(top, "ch"))
+            reports, w = wl.run_impl(c2, ops, os.path.join(tops[k], "ch"))
             m = wl.abs_of_history(c2, ops, reports)
             exp.update(wl.expected_with_fill(c2, m))
         order = list(tops)
         rng.shuffle(order)
         rd = digital_rf.DigitalRFReader(order)
-        res.case(("multidir", cfg.key(), len(tops)))
+        res.case(("multidir", cfg.key(), tuple(owner), tuple(order)))
         res.count("multidir")
-        hist = {"cfg": cfg.as_dict(), "tops": len(tops)}
+        hist = {"cfg": cfg.as_dict(), "period_owner": owner, "dir_order": [os.path.basename(t) for t in order]}
         b = rd.get_bounds("ch")
         if (b[0], b[1]) != (min(exp), max(exp)):
             res.violation("multidir-bounds", "bounds over several top-level directories are not those of the union", hist, [min(exp), max(exp)], list(b))
